@@ -12,7 +12,7 @@ theorem natHexF_step (f v : Nat) (h : ¬ v < 16) : natHexF (f + 1) v = natHexF f
   simp [natHexF, h]
 
 theorem hexChar_zero : hexChar 0 = '0' := by decide
-theorem digitVal_hexChar : ∀ n, n < 16 → digitVal (hexChar n) = n := by decide
+theorem emit_digitVal_hexChar : ∀ n, n < 16 → digitVal (hexChar n) = n := by decide
 
 theorem fmtHex4 (d : Nat) (h : d < 65536) :
     fmtHex 4 d = [hexChar (d / 4096), hexChar (d / 256 % 16), hexChar (d / 16 % 16), hexChar (d % 16)] := by
@@ -56,7 +56,7 @@ theorem emit16 (d : Nat) (h : d < 65536) : emitValue (branchValue false d) = som
   have b2 : d / 256 % 16 < 16 := by omega
   have b3 : d / 16 % 16 < 16 := by omega
   have b4 : d % 16 < 16 := by omega
-  rw [digitVal_hexChar _ b1, digitVal_hexChar _ b2, digitVal_hexChar _ b3, digitVal_hexChar _ b4]
+  rw [emit_digitVal_hexChar _ b1, emit_digitVal_hexChar _ b2, emit_digitVal_hexChar _ b3, emit_digitVal_hexChar _ b4]
   simp only [List.reverse_cons, List.reverse_nil, List.nil_append, List.cons_append, Option.some.injEq,
     List.cons.injEq, and_true]
   omega
